@@ -416,7 +416,10 @@ Section Model.
            | None => Err EValue
            | Some bounds =>
                let size := bounds_size bounds in
-               if (size <=? 0)%Z then Err EUnsupported else
+               (* a negative size (a range written hi:lo): expand_data_card finds 0 items
+                  instead of the negative number expected: ValueError; size 0: the
+                  slice kw_list[-0:] deletes every remaining token (outside the model) *)
+               if (size <=? 0)%Z then (if (size <? 0)%Z then Err EParse else Err EUnsupported) else
                expand_ints e (Z.to_nat size) r2 [] >>= fun '(us, r3) =>
                Ok (Some bounds, FList us, r3)
            end
